@@ -1,29 +1,24 @@
 /-
-C12 — Lean-checked counterexample of the full trace-level statement (open known finding C12-getchar-typeahead).
+C12 — the former counterexample of the trace-level statement (finding C12-getchar-typeahead, repaired in /repo by
+`fix: a line typed while get_char() was pending stayed unframed ...`), kept as a Lean-checked regression: on the model
+of the repaired code the oracle accepts the trace.
 -/
 import NV.C12.Model
 import NV.C12.Spec
 
 namespace NV.C12
 
-/-- the full statement: the oracle accepts the trace of every history under every script oracle -/
-def C12_trace_Full : Prop := ∀ (sc : Scripts) (cs : List Cmd), judgeEv (events sc cs) = []
-
 /-- user 1 answers its command `g` with get_char() -/
 def wScripts : Scripts := fun u t => if u = 1 ∧ t = ['g'] then [Op.gc] else []
 
 /-- `g` and `c` typed as lines; `x` typed as a line while the get_char() is pending.  The get_char() consumes `c`;
-    the raw bytes of `x CR LF` stay buffered in line mode without a terminator: user 1 is not served in cycle 4. -/
+    before the repair the raw bytes `x CR LF` stayed buffered without a terminator and user 1 was not served in
+    cycle 4; now they are reframed when single-char mode ends and `x` is served in cycle 4. -/
 def wCmds : List Cmd :=
-  [.conn, .cycle, .send 1 "g~c~".toList, .cycle, .send 1 "x~".toList, .cycle, .cycle]
+  [.conn, .cycle, .send 1 "g~c~".toList, .cycle, .send 1 "x~".toList, .cycle, .cycle, .cycle]
 
 set_option maxRecDepth 20000 in
-theorem getchar_typeahead_witness : judgeEv (events wScripts wCmds) = [Viol.idleWaitRaw 4 1, Viol.starvedRaw 1 4] := by decide
-
-theorem C12_trace_Full_false : ¬ C12_trace_Full := by
-  intro h
-  have := h wScripts wCmds
-  rw [getchar_typeahead_witness] at this
-  cases this
+theorem getchar_typeahead_repaired :
+    judgeEv (events wScripts wCmds) = [] ∧ (events wScripts wCmds).count (Ev.cmd 1 ['x']) = 1 := by decide
 
 end NV.C12
